@@ -106,7 +106,10 @@ CLAIMS = {
              'provider id; CoreStep.getDigest, StepIR.getDigestCoro and the frozen format specification produce identical bytes for all contents (so stored, Jenkins and live ids agree and existing ids stay valid). '
              '(2) Parser level: for the generated projects of the C04 harness (feature bits symbolic) the Variant-Ids of all three steps of every package path are unchanged under another absolute project path (long, blanks, '
              'non-ASCII), reversed creation order of recipe files and of files included through a glob pattern, shifted time stamps, a warm second parse, sandbox switched on, and PYTHONHASHSEED 0 / 1 / 4711 in fresh interpreters. '
-             '"Number of times a package is reached / parse order" is decided by the C04 check.',
+             '"Number of times a package is reached / parse order" is decided by the C04 check. '
+             '(3) Weakly used tools: for all 2^12 memberships of a tool in {checkout,build,package}Tools[Weak] of a recipe and its class (thorough: the tool also depending on a second tool through dependTools / dependToolsWeak), through the real parser: '
+             'a step sees the tool iff it is listed for it or an earlier step, it is weak iff no strong listing applies, the Variant-Id of every step that sees it changes with the variant of the providing package, '
+             'and the Build-Id (real getDigestCoro with relaxTools) of the build and package step changes iff the tool (or a tool it depends on strongly) is used strongly.',
         design_ref='DESIGN.md section 4, C03',
         note='Outside: golden ids of test/black-box/stable-variant-ids (the frozen format specification stands in for them), Build-Ids at parser level (covered through the C07 world check: other location => download without build), '
              'audit-file / meta-environment / network-access / job-server settings at parser level.'),
@@ -196,7 +199,8 @@ CLAIMS = {
         design_ref='DESIGN.md section 4, C17',
         note='Trusted: specs/subst_ref.py (reference written from doc/manual/configuration.rst), CrossHair/z3 string theory '
              '(counterexamples are replayed in plain CPython). Outside: regex functions match/resubst/matchScm, strings longer than the bound, '
-             'pyparsing text->AST step of IfExpression (skeletons are parsed by the real grammar but only enumerated).'),
+             'pyparsing text->AST step of IfExpression (22 hand-written skeletons + every expression of nesting depth <= 2 over !, ==, && (quick) / !, ==, !=, <, &&, || (thorough) generated from the documented grammar, well typed or not, '
+             'are parsed by the real grammar; only their literals are symbolic).'),
     'C04': dict(
         engine='X',
         technique='CrossHair+z3 symbolic execution of Env touch tracking / StringParser on symbolic strings (non-interference); CrossHair+z3 enumeration of project shapes and invocation histories through the real RecipeSet.parse / generatePackages / Recipe.prepare memoisation, the real persisted pickle / sqlite caches and the real path query, '
